@@ -41,6 +41,10 @@ PROP = {
             "cases; the bubble clock is 137 ms off a whole second and expiries are not multiples of 1000; the real SendRdb with 2-3 "
             "workers (plain and bidirectional, split values, empty key) under every policy with an order-free monitor; a client "
             "write between buildBisyncRdbReplayUnit's EXISTS probe and execBisyncRdbUnit's MULTI/EXEC (tg.Hook) on the RESTORE path. "
+            "Schedules of the parser vs the replay workers (they share the BinEntry objects): besides 'everything parsed first', the plain "
+            "harness runs an INTERLEAVED schedule (entry n+1 parsed only after entry n was replayed; monitor: all bins of a value carry "
+            "the key of its first bin) and the send mode a GATED source (the snapshot arrives in two parts with quiescence in between, "
+            "every 2nd byte offset, tagged keys, split values, 1-2 workers). "
             "distinct_nontrivial = distinct cases with at least one pre-existing key",
     "trusted": [
         "Redis semantics of EXISTS/DEL/PEXPIRE/RESTORE[REPLACE]/BUSYKEY and of native data commands (create-or-append, TTL kept) "
@@ -78,6 +82,6 @@ MANIFEST = {
             "to the real code by request-by-request correspondence against the target double with pre-populated keys; an "
             "independent Go monitor checks the property itself on the real code's final keyspace.",
     "note": "trusted: Lean kernel, transcribed Redis semantics of the few commands used, target double, harness; models of the "
-            "REPAIRED code (D7, D21, D24, D25, D27 fixed)",
+            "REPAIRED code (D7, D21, D24, D25, D27, D28 fixed)",
     "technique": "Lean 4 proof (induction over the chunk list, per-key object semantics, frame lemmas) + differential correspondence + monitor",
 }
